@@ -27,6 +27,8 @@ import GrcovModel.Props.C11Partial
 import GrcovModel.Props.C11Symlink
 import GrcovModel.Props.C11Main
 import GrcovModel.Props.C11Glob
+import GrcovModel.Props.C11Filter
+import GrcovModel.Props.C11Edges
 namespace Grcov.Props.C11
 open Grcov Grcov.UPath Grcov.Glob Grcov.Rewrite
 
@@ -38,12 +40,15 @@ theorem C11_report_members (cfg : Cfg) (fs : FS) (m : List (Bytes × Cov)) (rep 
     r ∈ rep ↔ ∃ kc ∈ m, rewriteKey cfg fs kc = .ok (some r) :=
   mem_rewritePaths h r
 
-/-- A key is reported iff its rewritten relative path matches no ignore glob, matches some
+/-- WITHOUT any `--excl-*` option (the general statement, with the exclusion markers applied before
+the covered filter as in the code, is `C11_selection_iff` in Props/C11Filter.lean; this is its
+instance `flt = fun _ => []`, `C11_no_markers_is_plain`): a key is reported iff its rewritten
+relative path matches no ignore glob, matches some
 keep-only glob when any is given, exists on disk when ignore-not-existing is set, and has the
 requested covered/uncovered status; the record then carries exactly that path — the one the globs
 were matched against, also for keys and mapping values spelled with backslashes — and the key's own
 data. (`resolveKey` is the path part of the pipeline; it does not look at the filters.) -/
-theorem C11_selection_iff (cfg : Cfg) (fs : FS) (kc : Bytes × Cov) (r : Rec) :
+theorem C11_selection_iff_no_markers (cfg : Cfg) (fs : FS) (kc : Bytes × Cov) (r : Rec) :
     rewriteKey cfg fs kc = .ok (some r) ↔
       ∃ abs rel, resolveKey cfg fs kc.1 = .ok (some (abs, rel)) ∧
         setMatch cfg.ignore rel = false ∧
@@ -105,7 +110,8 @@ theorem C11_covered_uncovered_partition_key (cfg : Cfg) (hf : cfg.filter = none)
         rewriteKey { cfg with filter := some false } fs kc = .ok o) :=
   (rewriteKey_filter cfg hf fs kc).2 o h
 
-/-- `--filter covered` and `--filter uncovered` partition the unfiltered report. -/
+/-- `--filter covered` and `--filter uncovered` partition the unfiltered report (no `--excl-*`
+option; with markers: `C11_covered_uncovered_partition_markers`). -/
 theorem C11_covered_uncovered_partition (cfg : Cfg) (hf : cfg.filter = none) (fs : FS)
     (m : List (Bytes × Cov)) (rep : List Rec) (h : rewritePaths cfg fs m = .ok rep) :
     ∃ rc ru, rewritePaths { cfg with filter := some true } fs m = .ok rc ∧
@@ -155,7 +161,7 @@ backslashed keys and mapping values included (since fix 568afd2; before it the m
 `{"a.c": "x\..\y.c"}` put `x/../y.c` into the report). -/
 theorem C11_normal_form : C11_normal_form_stmt := by
   intro cfg fs kc r h
-  obtain ⟨a, rl, h1, _, _, _, _, e⟩ := (C11_selection_iff cfg fs kc r).1 h
+  obtain ⟨a, rl, h1, _, _, _, _, e⟩ := (C11_selection_iff_no_markers cfg fs kc r).1 h
   obtain ⟨r0, _, hf⟩ := resolveKey_some h1
   rw [e]
   exact (finalRel_shape hf).1
@@ -164,7 +170,7 @@ theorem C11_normal_form : C11_normal_form_stmt := by
 values, the source dir or the names on disk contain. -/
 theorem C11_no_backslash (cfg : Cfg) (fs : FS) (kc : Bytes × Cov) (r : Rec)
     (h : rewriteKey cfg fs kc = .ok (some r)) : 92 ∉ r.rel := by
-  obtain ⟨a, rl, h1, _, _, _, _, e⟩ := (C11_selection_iff cfg fs kc r).1 h
+  obtain ⟨a, rl, h1, _, _, _, _, e⟩ := (C11_selection_iff_no_markers cfg fs kc r).1 h
   obtain ⟨r0, _, hf⟩ := resolveKey_some h1
   rw [e]
   exact (finalRel_shape hf).2
@@ -176,7 +182,7 @@ theorem C11_reported_is_final (cfg : Cfg) (fs : FS) (kc : Bytes × Cov) (r : Rec
     ∃ r0, getAbsPath fs cfg.sourceDir (keyPath cfg kc.1) = .ok (some (r.abs, r0)) ∧
       normalizePath (bsl r0) = some r.rel ∧ setMatch cfg.ignore r.rel = false ∧
       (cfg.keep = [] ∨ setMatch cfg.keep r.rel = true) := by
-  obtain ⟨a, rl, h1, h2, h3, _, _, e⟩ := (C11_selection_iff cfg fs kc r).1 h
+  obtain ⟨a, rl, h1, h2, h3, _, _, e⟩ := (C11_selection_iff_no_markers cfg fs kc r).1 h
   obtain ⟨r0, hg, hf⟩ := resolveKey_some h1
   subst e
   exact ⟨r0, hg, hf, h2, h3⟩
@@ -184,7 +190,7 @@ theorem C11_reported_is_final (cfg : Cfg) (fs : FS) (kc : Bytes × Cov) (r : Rec
 /-- The reported absolute path is in normal form, always. -/
 theorem C11_abs_normal_form (cfg : Cfg) (fs : FS) (kc : Bytes × Cov) (r : Rec)
     (h : rewriteKey cfg fs kc = .ok (some r)) : NormalForm r.abs := by
-  obtain ⟨a, rl, h1, _, _, _, _, e⟩ := (C11_selection_iff cfg fs kc r).1 h
+  obtain ⟨a, rl, h1, _, _, _, _, e⟩ := (C11_selection_iff_no_markers cfg fs kc r).1 h
   obtain ⟨r0, hg, _⟩ := resolveKey_some h1
   obtain ⟨ac, _, hn, _⟩ := (getAbsPath_some_iff _ _ _ _ _).1 hg
   obtain ⟨np, enp, hreal, _⟩ := normalizePath_shape hn
@@ -206,7 +212,7 @@ theorem C11_escape_not_reported (cfg : Cfg) (fs : FS) (kc : Bytes × Cov) (r : R
       normalizePath ac ≠ none ∧
       normalizePath (fixupRelPath cfg.sourceDir ac (keyPath cfg kc.1)) = some r0 ∧
       normalizePath (bsl r0) ≠ none := by
-  obtain ⟨a, rl, h1, _⟩ := (C11_selection_iff cfg fs kc r).1 h
+  obtain ⟨a, rl, h1, _⟩ := (C11_selection_iff_no_markers cfg fs kc r).1 h
   obtain ⟨r0, hg, hf⟩ := resolveKey_some h1
   obtain ⟨ac, h2, h3, h4⟩ := (getAbsPath_some_iff _ _ _ _ _).1 hg
   exact ⟨ac, r0, h2, by simp [h3], h4, by unfold finalRel at hf; simp [hf]⟩
@@ -279,8 +285,9 @@ example : resolveKey { sourceDir := some [47, 115] } { files := [], dirs := [], 
 
 /-! ### data -/
 
-/-- Coverage data of a retained file is passed through unchanged (no exclusion markers are
-configured in this model: that is C16): every reported record carries the data of the map entry
+/-- Coverage data of a retained file is passed through unchanged when no exclusion marker is
+configured (with markers: `C11_data_passthrough_markers`, the record is what the markers of that
+file leave of it): every reported record carries the data of the map entry
 it comes from, and no entry yields more than one record. -/
 theorem C11_data_passthrough (cfg : Cfg) (fs : FS) (m : List (Bytes × Cov)) (rep : List Rec)
     (h : rewritePaths cfg fs m = .ok rep) :
@@ -290,7 +297,7 @@ theorem C11_data_passthrough (cfg : Cfg) (fs : FS) (m : List (Bytes × Cov)) (re
   · intro r hr
     obtain ⟨kc, hkc, hk⟩ := (mem_rewritePaths h r).1 hr
     refine ⟨kc, hkc, hk, ?_⟩
-    obtain ⟨_, _, _, _, _, _, _, e⟩ := (C11_selection_iff cfg fs kc r).1 hk
+    obtain ⟨_, _, _, _, _, _, _, e⟩ := (C11_selection_iff_no_markers cfg fs kc r).1 hk
     rw [e]
   · obtain ⟨_, _, e⟩ := (rewritePaths_eq_ok cfg fs m rep).1 h
     rw [e]; exact List.length_filterMap_le _ _
